@@ -56,6 +56,7 @@ type GhostFn struct {
 	Params []string // spec types
 	Result string
 	Field  bool // mutable ghost heap (first param is the ref key)
+	PkgPath string
 }
 
 type Pred struct {
@@ -311,7 +312,7 @@ func (cs *Contracts) parseLine(cur **FuncContract, t, path string, ln int, pkgPa
 		if i < 0 || j < i {
 			return errf("bad ghost declaration")
 		}
-		g := &GhostFn{Name: strings.TrimSpace(rest[:i]), Params: splitNames(rest[i+1 : j]), Result: strings.TrimSpace(rest[j+1:]), Field: word == "ghostfield"}
+		g := &GhostFn{Name: strings.TrimSpace(rest[:i]), Params: splitNames(rest[i+1 : j]), Result: strings.TrimSpace(rest[j+1:]), Field: word == "ghostfield", PkgPath: pkgPath}
 		if g.Result == "" {
 			g.Result = "bool"
 		}
